@@ -80,6 +80,22 @@ func (n *Property) Inject(metas []*Meta) error {
 		return nil
 	}
 
+	//remove components that cannot be assigned to the field
+	elemType := n.Type
+	if k := elemType.Kind(); k == reflect.Slice || k == reflect.Array {
+		elemType = elemType.Elem()
+	}
+	assignable := filter(metas, func(m *Meta) bool {
+		return m.Value.Type().AssignableTo(elemType)
+	})
+	if len(assignable) == 0 {
+		if isRequired {
+			return errors.Errorf("inject '%s': component of type '%s' is not assignable to the field", n, metas[0].Type)
+		}
+		return nil
+	}
+	metas = assignable
+
 	switch n.Type.Kind() {
 	case reflect.Slice, reflect.Array:
 		n.Value.Set(reflect.MakeSlice(n.Type, len(metas), len(metas)))
